@@ -5,6 +5,9 @@ CONSTANTS
   MaxObjs = 5
   MaxMasks = 3
   MaxConvs = 4
+  MaskSizes = {1, 2, 3}
+  MaxFiles = 2
+  MaxOff = 2
   Depth = 8
 INVARIANT Emit
 CHECK_DEADLOCK FALSE
